@@ -128,4 +128,123 @@ theorem specCases_count (X : SchemaX) (o : VOpts) (hns : o.noState = false) (c :
     · simp
 end
 
+/-! ## sublist -/
+
+theorem sublist_flatMap {α : Type} (l : List α) (f g : α → List EKind) (H : ∀ x, (f x).Sublist (g x)) :
+    (l.flatMap f).Sublist (l.flatMap g) := by
+  induction l with
+  | nil => simp
+  | cons x xs ih => simp only [List.flatMap_cons]; exact List.Sublist.append (H x) ih
+
+theorem ll_clause_sublist (cfg ci pw : Bool) (h : ci = true → cfg = true) :
+    (if ci && !pw then [EKind.dup] else []).Sublist (if cfg && !pw then [EKind.dup] else []) := by
+  cases cfg <;> cases ci <;> cases pw <;> simp_all
+
+mutual
+theorem specNode_sublist (X : SchemaX) (o : VOpts) (hns : o.noState = false) (c : SNode → Bool)
+    (hc : ∀ i, c i = true → i.config = true) : ∀ (k : STree) (sibs : List DNode),
+    (specNode (X.mapConfig c) o (k.mapConfig c) sibs).Sublist (specNode X o k sibs)
+  | .mk s i ks, sibs => by
+    have ihL := specL_sublist X o hns c hc ks
+    have ihC := specCases_sublist X o hns c hc ks
+    unfold STree.mapConfig
+    generalize hj : setConfig c i = j
+    obtain ⟨d, kind, nm, pres, cfg, nk, uo, mn, mx, ty, mand, isk, dfl, dc⟩ := i
+    obtain ⟨d', kind', nm', pres', cfg', nk', uo', mn', mx', ty', mand', isk', dfl', dc'⟩ := j
+    simp only [setConfig, SNode.mk.injEq] at hj
+    obtain ⟨rfl, rfl, rfl, rfl, hcfg, rfl, rfl, rfl, rfl, rfl, rfl, rfl, rfl, rfl⟩ := hj
+    unfold specNode
+    simp only [hns, Bool.false_and, Bool.false_eq_true, if_false, List.nil_append, Bool.not_false,
+      Bool.true_and, SchemaX.mapConfig_base, SchemaX.mapConfig_uniquesOf, mapConfigS_keyVals]
+    cases kind with
+    | leaf => exact List.Sublist.refl _
+    | leaflist =>
+      refine List.Sublist.append (List.Sublist.append (List.Sublist.append ?_ (List.Sublist.refl _)) (List.Sublist.refl _)) (List.Sublist.refl _)
+      exact ll_clause_sublist cfg cfg' _ (by rw [← hcfg]; exact hc _)
+    | container =>
+      refine List.Sublist.append (List.Sublist.refl _) ?_
+      rcases Bool.eq_false_or_eq_true pres with hp | hp <;> simp only [hp]
+      · exact sublist_flatMap _ _ _ (fun x => ihL x.kids)
+      · by_cases hE : (instsOf sibs s).isEmpty = true
+        · simp only [hE, if_true, Bool.false_eq_true, if_false]; exact ihL []
+        · simp only [hE, Bool.false_eq_true, if_false]; exact sublist_flatMap _ _ _ (fun x => ihL x.kids)
+    | list =>
+      have h2 := fun u => uniqueOk_mapConfig c (.mk s ⟨d, .list, nm, pres, cfg, nk, uo, mn, mx, ty, mand, isk, dfl, dc⟩ ks) u (instsOf sibs s)
+      unfold STree.mapConfig at h2
+      simp only [setConfig, hcfg] at h2
+      simp only [h2, keysOk_mapConfig c X.base s ⟨d, .list, nm, pres, cfg, nk, uo, mn, mx, ty, mand, isk, dfl, dc⟩ _ ks]
+      exact List.Sublist.append (List.Sublist.refl _) (sublist_flatMap _ _ _ (fun x => ihL x.kids))
+    | choice =>
+      simp only [filter_hasData_mapConfig, filter_hasData_mapConfig_isEmpty]
+      exact List.Sublist.append (List.Sublist.refl _) (ihC sibs)
+    | case => exact ihL sibs
+theorem specL_sublist (X : SchemaX) (o : VOpts) (hns : o.noState = false) (c : SNode → Bool)
+    (hc : ∀ i, c i = true → i.config = true) : ∀ (ks : List STree) (sibs : List DNode),
+    (specL (X.mapConfig c) o (mapConfigL c ks) sibs).Sublist (specL X o ks sibs)
+  | [], _ => by simp [specL, mapConfigL]
+  | k :: ks, sibs => by
+    unfold mapConfigL specL
+    exact List.Sublist.append (specNode_sublist X o hns c hc k sibs) (specL_sublist X o hns c hc ks sibs)
+theorem specCases_sublist (X : SchemaX) (o : VOpts) (hns : o.noState = false) (c : SNode → Bool)
+    (hc : ∀ i, c i = true → i.config = true) : ∀ (ks : List STree) (sibs : List DNode),
+    (specCases (X.mapConfig c) o (mapConfigL c ks) sibs).Sublist (specCases X o ks sibs)
+  | [], _ => by simp [specCases, mapConfigL]
+  | k :: ks, sibs => by
+    unfold mapConfigL specCases
+    simp only [STree.mapConfig_dataSids]
+    refine List.Sublist.append ?_ (specCases_sublist X o hns c hc ks sibs)
+    split
+    · exact specNode_sublist X o hns c hc k sibs
+    · exact List.Sublist.refl _
+end
+
+/-! ## the list of relaxed duplicates holds nothing but `.dup` -/
+
+theorem mem_flatMap_all {α : Type} (P : EKind → Prop) (l : List α) (f : α → List EKind) (H : ∀ x, ∀ e ∈ f x, P e) :
+    ∀ e ∈ l.flatMap f, P e := by
+  intro e he
+  obtain ⟨x, _, hx⟩ := List.mem_flatMap.1 he
+  exact H x e hx
+
+mutual
+theorem llDupNode_only_dup (c : SNode → Bool) : ∀ (k : STree) (sibs : List DNode), ∀ e ∈ llDupNode c k sibs, e = .dup
+  | .mk s i ks, sibs => by
+    have ihL := llDupL_only_dup c ks
+    have ihC := llDupCases_only_dup c ks
+    unfold llDupNode
+    cases i.kind with
+    | leaf => simp
+    | leaflist =>
+      simp only
+      split <;> simp
+    | container =>
+      simp only
+      split
+      · exact mem_flatMap_all _ _ _ (fun x => ihL x.kids)
+      · split
+        · exact ihL []
+        · exact mem_flatMap_all _ _ _ (fun x => ihL x.kids)
+    | list => exact mem_flatMap_all _ _ _ (fun x => ihL x.kids)
+    | choice => exact ihC sibs
+    | case => exact ihL sibs
+theorem llDupL_only_dup (c : SNode → Bool) : ∀ (ks : List STree) (sibs : List DNode), ∀ e ∈ llDupL c ks sibs, e = .dup
+  | [], _ => by simp [llDupL]
+  | k :: ks, sibs => by
+    unfold llDupL
+    intro e he
+    rcases List.mem_append.1 he with h | h
+    · exact llDupNode_only_dup c k sibs e h
+    · exact llDupL_only_dup c ks sibs e h
+theorem llDupCases_only_dup (c : SNode → Bool) : ∀ (ks : List STree) (sibs : List DNode), ∀ e ∈ llDupCases c ks sibs, e = .dup
+  | [], _ => by simp [llDupCases]
+  | k :: ks, sibs => by
+    unfold llDupCases
+    intro e he
+    rcases List.mem_append.1 he with h | h
+    · split at h
+      · exact llDupNode_only_dup c k sibs e h
+      · cases h
+    · exact llDupCases_only_dup c ks sibs e h
+end
+
 end LyModel.Valid
